@@ -675,6 +675,23 @@ class ComputeGraph(MultiDiGraph):
                 )
             code_gen.add_import("from scipy.sparse import csr_matrix")
 
+        # Functions that enter the Jacobian only through differentiation (cos from sin, cosh from sinh, sign from
+        # absv, ...) need their imports as well; entries that cannot be differentiated are reported at run time.
+        undifferentiated = []
+        for (i_r, j_c), d_expr in list(J0_entries.items()) + [it for ent in J_hist.values() for it in ent.items()]:
+            d_res = self._resolve_derivatives(d_expr)
+            if d_res.atoms(sp.Derivative):
+                undifferentiated.append((i_r, j_c))
+                continue
+            for f_atom in d_res.atoms(sp.Function):
+                try:
+                    self.get_op(f_atom.func.__name__)
+                except Exception:
+                    pass
+        if undifferentiated:
+            warn(f"get_jacobian_func: {len(undifferentiated)} Jacobian entries could not be differentiated "
+                 f"analytically and are left as zero: {sorted(set(undifferentiated))}", UserWarning)
+
         # determine return-variable name(s) for MATLAB function signature
         if J_hist:
             d_safes = [d_str.replace('.', 'p').replace('-', 'm') for d_str in J_hist]
